@@ -1685,6 +1685,22 @@ def Q_rules(ctx, rule="Q"):
                 ok3 = cs == {roles["graph"]} and topo_item
                 why = "lookup in field %s with id sources %s" % (sorted(map(str, cs)), [fmt_src(s) for s in ids][:3])
             ctx.check(ok3, rule + "3", "lookup|%s" % key, where, "the id produced by Topo indexes self.graph unchanged", why)
+        # Q7: the caller's callback is invoked for every function Topo produces: it is reachable from the method at all, and no
+        # condition on a value (a comparison, a boolean call) decides whether an item is passed to it
+        if key in ("map", "fold", "try_fold", "for_each", "try_for_each"):
+            pc_sites = [(bx, bbx, tx) for bx in m.reach_bodies(b.id) for bbx, tx, pn in m.param_calls(bx)]
+            okq7 = bool(pc_sites)
+            whyq7 = "no invocation of the caller's callback is reachable from %s: it visits the functions without running anything" % key
+            for bx, bbx, tx in pc_sites:
+                for sb_, de_, vals_ in cond_guards(bx, bbx):
+                    de2 = strip_refs(de_)
+                    if de2.kind == "binop" or (de2.kind == "call" and bx.blocks[sb_]["term"]["discr"].get("pl", {}).get("ty") == "bool") or \
+                            (de2.kind == "unop" and de2[1] == "Not"):
+                        okq7 = False
+                        whyq7 = "the callback of %s is invoked only under `%s`: some functions are skipped" % (key, fmt_expr(de2, bx)[:80])
+            ctx.check(okq7, rule + "7", "callback-each|%s" % key, where,
+                      "%s invokes the caller's callback for every function it visits (%d call site(s), none under a value condition)" % (key, len(pc_sites)),
+                      whyq7)
         # Q4: try_* : no callback after the Err edge
         if key in ("try_fold", "try_for_each") and not m.param_calls(b):
             # `self.map(callback).try_for_each(identity)`: the lazily mapped sibling (checked under its own name) invokes the
